@@ -41,7 +41,7 @@ func buildShared(rng *Rng, round int) *c17Shared {
 				d = *c19Claims(rng, true)
 			}
 			d.Sw = nil
-			d.NoSw = uip(1)
+			d.NoSw = uip(Pick(rng, []uint{1, 0, 7, 1 << 33}))
 			tokb := tokenOf(&d).Bytes()
 			c, err := psa.DecodeClaimsFromCBOR(tokb)
 			if err == nil {
@@ -77,6 +77,14 @@ func buildShared(rng *Rng, round int) *c17Shared {
 		s.tokKey = append(s.tokKey, k.id)
 		s.cbor = append(s.cbor, tokenOf(d).Bytes())
 		s.json = append(s.json, []byte(jsonOf(d).Text()))
+		if i == 0 {
+			// a document declaring both built-in profiles at once: refused, by every goroutine, every time
+			two := jsonOf(d).clone()
+			two.set("psa-profile", jS(psa.Profile1Name))
+			two.set("eat-profile", jS(psa.Profile2Name))
+			s.cbor = append(s.cbor, tokenOf(d).Bytes())
+			s.json = append(s.json, []byte(two.Text()))
+		}
 	}
 	// envelopes with unusual header placements, genuinely signed by hand (shared, verified from many goroutines)
 	for _, ht := range handTokens(rng) {
